@@ -245,6 +245,12 @@ func (x *Exec) run(lines []string) {
 	for i, line := range lines {
 		x.lineNo = i + 1
 		t0 := time.Now()
+		// watchdog: an op of the real code that does not finish is reported, not waited for
+		wd := time.AfterFunc(opTimeout(), func() {
+			x.out.Flush()
+			fmt.Fprintf(os.Stderr, "OP-TIMEOUT line %d: %s\n", i+1, line)
+			os.Exit(3)
+		})
 		toks := strings.Fields(line)
 		var out string
 		switch {
@@ -281,6 +287,7 @@ func (x *Exec) run(lines []string) {
 		if len(toks) > 0 {
 			x.cover(toks[0] + "/" + cls)
 		}
+		wd.Stop()
 		fmt.Fprintln(x.out, out)
 		if !(len(toks) > 0 && toks[0] == "reset") {
 			x.scOut = append(x.scOut, out)
@@ -355,4 +362,13 @@ func readLines(path string) []string {
 		return nil
 	}
 	return strings.Split(s, "\n")
+}
+
+func opTimeout() time.Duration {
+	if v := os.Getenv("VERIF_OP_TIMEOUT_S"); v != "" {
+		if n, err := time.ParseDuration(v + "s"); err == nil {
+			return n
+		}
+	}
+	return 20 * time.Second
 }
